@@ -45,7 +45,7 @@ plan('C09',
                                   'termination is decided logically: after the client closed, a handler thread that is still running and has used > 2 s of CPU is spinning; one that is still blocked after 25 s is a hang '
                                   '(the library\'s own waits are at most 10 s); either ends the harness process for that case',
                                   'well-formed requests follow RFC 7230: optional whitespace after the header colon and at the end of the value, any case for header names; no obs-fold, no trailers, no fragments in the target'])
-T('C09', 'hostile raw-socket client against the real connection handler on a socketpair: generated/mutated/cut request streams with an application-side recorder, exhaustive traversal-target enumeration against a file server with an out-of-root sentinel, under ASan and at -O2',
+T('C09', 'hostile raw-socket client against the real connection handler on a socketpair: generated/mutated/cut request streams with an application-side recorder, exhaustive traversal-target enumeration against a file server with an out-of-root sentinel, , several connections with large bodies at once under TSan, under ASan and at -O2',
   'The application-side recorder must see exactly the generated requests; every stream is also cut at every offset; the handler must return after the peer closes (CPU-clock based spin detection); '
   'no decoded path may contain "..", no response may contain the sentinel stored outside the root; URL parsing/decoding is swept over all short metacharacter strings under ASan.',
   'Trusts the generator\'s description of each request, gcc ASan, thread CPU clocks for spin detection.')
